@@ -284,6 +284,11 @@ impl ractor::thread_local::ThreadLocalActor for QTl {
     }
 }
 
+fn tl_spawner() -> ractor::thread_local::ThreadLocalActorSpawner {
+    static TL: OnceLock<ractor::thread_local::ThreadLocalActorSpawner> = OnceLock::new();
+    TL.get_or_init(ractor::thread_local::ThreadLocalActorSpawner::new).clone()
+}
+
 fn rt() -> &'static tokio::runtime::Runtime {
     static RT: OnceLock<tokio::runtime::Runtime> = OnceLock::new();
     RT.get_or_init(|| th::runtime(4))
@@ -324,7 +329,9 @@ fn fam_actor(seed: u64, tally: &Arc<Tally>) -> Out {
     let term = p.below(6); // 0 none (stop at end), 1 stop, 2 kill, 3 drain, 4 stop_and_wait, 5 fail message
     let sup_sh = QShared::new(tally, false);
     let sub_sh = QShared::new(tally, tl);
-    let spawner = if tl { Some(ractor::thread_local::ThreadLocalActorSpawner::new()) } else { None };
+    // one spawner thread for the whole process (like C10): creating and dropping a spawner per scenario makes LeakSanitizer report
+    // the spawner's own channel now and then (seen at the thorough tier only; the spawner's lifetime is outside the 20 properties, §8)
+    let spawner = if tl { Some(tl_spawner()) } else { None };
     let r = rt().block_on(async {
         let (sup, sh) = Actor::spawn(None, QActor { sh: sup_sh.clone() }, ()).await.ok()?;
         let (sub, h) = if let Some(sp) = &spawner {
